@@ -20,6 +20,7 @@ RULE = ("Union of the mailbox-world generators restricted to LEGAL application b
         "triple in a closing/closed state, used re-entrancy, a third party, an injected error or a loss. "
         "Distinct = (features, event-kind trace). The set of (machine,state,input) triples reached by the run is "
         "written to evidence.")
+RULE += (' Added later: WebSocket CLOSING window, outages, raw UTF-8 server JSON with non-ASCII motd / error texts.')
 ASSUMPTIONS = ["conformant server = the real wormhole_mailbox_server plus the listed delivery freedoms",
                "code-entry calls after close() are not legal orders (docs define no behaviour): not generated"]
 
